@@ -40,6 +40,11 @@ def install(ex):
         for k, fn in models_serde.REG: ex.register(k, fn)
     except ImportError:
         pass
+    try:
+        from . import models_capi
+        for k, fn in models_capi.REG: ex.register(k, fn)
+    except ImportError:
+        pass
 
 
 # --------------------------------------------------------------------------- helpers
@@ -546,6 +551,9 @@ def default_of(ex, ty):
     if s == 'f64': return 0.0
     if s in INT_TY: return 0
     if s == '()': return unit()
+    if s == 'Box':
+        m = re.match(r'^(?:std::boxed::|alloc::boxed::)?Box<(.*)>$', t)
+        if m: return m_box_new(ex, None, [default_of(ex, m.group(1))])
     tyc = ex.prog.canon_type(strip_generics(t))
     b = ex.prog.find_method(tyc, 'Default', 'default')
     if b is not None: return ex.call_body(b, [])
